@@ -22,10 +22,11 @@ def ROW(group, serial, name, alt, res, chain, seq, ins, model):
             "pdbx_formal_charge": "?", "pdbx_PDB_model_num": model}
 
 
-ROWS1 = [ROW("ATOM", "1", "N", ".", "GLY", "A", "1", "?", "1"), ROW("HETATM", "2", "O", ".", "HOH", "A", "2", "?", "1"),
+# (alternate ids: an A/B pair and an atom modelled only as B - every row is a record, whatever its alternate id)
+ROWS1 = [ROW("ATOM", "1", "N", "A", "GLY", "A", "1", "?", "1"), ROW("HETATM", "2", "O", ".", "HOH", "A", "2", "?", "1"),
          ROW("ATOM", "3", "CA", "B", "GLY", "A", "1", "C", "1"), ROW("ANISOU", "4", "CA", ".", "GLY", "A", "1", "?", "1"),
-         ROW("ATOM", "5", "C", ".", "GLY", "A", "1", "?", "1")]
-COORD1 = [1, 1, 1, 0, 1]
+         ROW("ATOM", "5", "C", ".", "GLY", "A", "1", "?", "1"), ROW("ATOM", "6", "N", "B", "GLY", "A", "1", "?", "1")]
+COORD1 = [1, 1, 1, 0, 1, 1]
 ROWS2 = [ROW("ATOM", "1", "N", ".", "GLY", "A", "1", "?", "1"), ROW("HETATM", "2", "O", ".", "HOH", "A", "2", "?", "1"),
          ROW("ATOM", "3", "N", ".", "GLY", "A", "1", "?", "2"), ROW("ANISOU", "4", "N", ".", "GLY", "A", "1", "?", "2"),
          ROW("HETATM", "5", "O", ".", "HOH", "A", "2", "?", "2")]
